@@ -196,6 +196,48 @@ def _expected_real(plane, m):
     return out
 
 
+
+def _rat(x):
+    f = Fraction(x) if not isinstance(x, Fraction) else x
+    return str(f.numerator) if f.denominator == 1 else f'{f.numerator}/{f.denominator}'
+
+
+def _map_json(m):
+    return {'label': m['label'], 'unit': m['unit'], 'isLut': m['kind'] == 'lut', 'first': _rat(m['first']), 'last': _rat(m['last']),
+            'slope': _rat(m.get('slope', 0)), 'intercept': _rat(m.get('intercept', 0)), 'lut': [_rat(v) for v in m.get('lut', [])]}
+
+
+def _pm_request(a, desc, nested, n_lists, pos, n_positions, ts, queries):
+    """the model's view of a constructor call: numpy facts of the array, its cells in C order of the normalised
+    (n, rows*cols, m) array, the mapping lists, the plane positions"""
+    nd = a.ndim
+    if nd == 2:
+        n, r, c, m = 1, a.shape[0], a.shape[1], 1
+    elif nd == 3:
+        n, r, c, m = a.shape[0], a.shape[1], a.shape[2], 1
+    elif nd == 4:
+        n, r, c, m = a.shape
+    else:
+        n, r, c, m = 0, 0, 0, 0
+    cells = []
+    if nd in (2, 3, 4) and a.dtype.kind in 'biufc' and a.size <= 6000:
+        le = np.ascontiguousarray(a).astype(a.dtype.newbyteorder('<')).reshape(-1)
+        raw = le.tobytes()
+        k = a.dtype.itemsize
+        cells = [list(raw[i * k:(i + 1) * k]) for i in range(le.size)]
+    return ('pm', {'kind': a.dtype.kind, 'name': a.dtype.name, 'dtype': str(a.dtype), 'itemsize': a.dtype.itemsize, 'ndim': nd,
+                   'n': n, 'r': r, 'c': c, 'm': m, 'cells': cells, 'nested': nested, 'nMappingLists': n_lists,
+                   'maps': [[_map_json(mm) for mm in ch] for ch in desc], 'nPositions': n_positions,
+                   'pos': [[_rat(v) for v in p] for p in pos], 'ts': ts, 'queries': queries})
+
+
+def _sel_json(sel):
+    if isinstance(sel, int):
+        return {'index': sel}
+    if isinstance(sel, str):
+        return {'label': sel}
+    return {'unit': sel.value}
+
 # ------------------------------------------------------------------ parametric maps
 def _pm_case(ctx, idx):
     r = ctx.rng('pm', idx)
@@ -240,20 +282,25 @@ def _build_pm(ctx, d, r, shape):
 def _check_pm(ctx, idx, reqs, pending):
     import highdicom as hd
     import pydicom
+    from pydicom.sr.coding import Code
     d, r, shape = _pm_case(ctx, idx)
     a, desc, pos, cs, st, pm = _build_pm(ctx, d, r, shape)
     N, M, rows, cols = d['N'], d['M'], d['rows'], d['cols']
     is_float = d['dtype'].startswith('float')
     big = d['layout'] == 'bigendian' and a.dtype.itemsize > 1
     case = dict(d, kind='pm')
+    nested = d['ndim'] == 4
     # ---- refusal expectations written from the docstring: '>u2' is not np.uint16 (refused), float byte order is accepted
     must_refuse = big and not is_float
     if st != 'ok':
         ctx.case(kind='pm', outcome='refused', dtype=d['dtype'], layout=d['layout'], syntax=TSNAME[d['ts']])
         if d['ts'] in (JLS, RLE) and 'Unable to encode' in pm:
             ctx.hist('pm_codec_limit', TSNAME[d['ts']])          # the codec gave up on this frame: a refusal, not a defect
-        elif not must_refuse:
-            ctx.fail(case, f'valid parametric map refused: {pm}', site='pm-construct')
+        else:
+            if not must_refuse:
+                ctx.fail(case, f'valid parametric map refused: {pm}', site='pm-construct')
+            reqs.append(_pm_request(a, desc, nested, len(desc), pos, len(pos), d['ts'], []))
+            pending.append((case, 'pm', 'err'))
         return
     if must_refuse:
         ctx.fail(case, 'array with non-native unsigned dtype accepted', site='pm-construct')
@@ -261,7 +308,8 @@ def _check_pm(ctx, idx, reqs, pending):
     planes = [np.ascontiguousarray(a4[i, :, :, j]) for i in range(N) for j in range(M)]
     want = np.stack(planes)
     nontriv = None
-    if want.size > 1 and want.astype(want.dtype.newbyteorder('<')).tobytes().count(want.reshape(-1)[:1].tobytes()) * want.dtype.itemsize != want.nbytes:
+    first_item = want.astype(want.dtype.newbyteorder('<')).reshape(-1)[:1].tobytes()
+    if want.size > 1 and want.astype(want.dtype.newbyteorder('<')).tobytes() != first_item * want.size:
         nontriv = (d['dtype'], d['source'], N, M, d['ts'], d['layout'])
     F = N * M
 
@@ -281,15 +329,21 @@ def _check_pm(ctx, idx, reqs, pending):
     obs('bits', int(pm.BitsAllocated) == bits and int(pm.NumberOfFrames) == F and (int(pm.Rows), int(pm.Columns)) == (rows, cols),
         f'BitsAllocated {pm.BitsAllocated} NumberOfFrames {pm.NumberOfFrames} Rows {pm.Rows} Columns {pm.Columns}; '
         f'expected {bits} {F} {rows} {cols}')
+    impl = {'element': present[0] if present else None, 'ba': int(pm.BitsAllocated), 'bs': int(pm.get('BitsStored', -1)),
+            'hb': int(pm.get('HighBit', -1)), 'pr': int(pm.get('PixelRepresentation', -1)), 'rows': int(pm.Rows), 'cols': int(pm.Columns),
+            'frames': int(pm.NumberOfFrames), 'pixelData': None, 'perFrame': [], 'answers': []}
     if d['ts'] in NATIVE:
         raw = bytes(getattr(pm, elem))
         exp = want.astype(want.dtype.newbyteorder('<')).tobytes()
         obs('stored-bytes', raw[:len(exp)] == exp and len(raw) in (len(exp), len(exp) + 1),
             'pixel data element is not the concatenation of the planes in frame order (little endian)')
+        impl['pixelData'] = list(raw[:len(exp)]) if len(raw) in (len(exp), len(exp) + 1) else list(raw)
     # per-frame metadata in frame order
     pffg = pm.PerFrameFunctionalGroupsSequence
     shared = pm.SharedFunctionalGroupsSequence[0]
     uniq = sorted(set(pos))
+    sh_labels = [m.LUTLabel for m in shared.RealWorldValueMappingSequence] if 'RealWorldValueMappingSequence' in shared else None
+    impl['shared'] = sh_labels
     for f in range(F):
         i, j = divmod(f, M)
         item = pffg[f]
@@ -298,13 +352,14 @@ def _check_pm(ctx, idx, reqs, pending):
         div = [int(div)] if not hasattr(div, '__len__') else [int(x) for x in div]
         okd = div == [uniq.index(pos[i]) + 1]
         labels = [m.LUTLabel for m in item.RealWorldValueMappingSequence] if 'RealWorldValueMappingSequence' in item else None
-        sh_labels = [m.LUTLabel for m in shared.RealWorldValueMappingSequence] if 'RealWorldValueMappingSequence' in shared else None
         want_labels = [m['label'] for m in desc[j]]
         okm = (labels is None and sh_labels == want_labels) if M == 1 else (labels == want_labels and sh_labels is None)
         obs('per-frame-position', okp, f'frame {f + 1}: plane position {_pos_of_item(item, cs)}, expected that of plane {i}: {pos[i]}', f)
         obs('per-frame-dimension-index', okd, f'frame {f + 1}: DimensionIndexValues {div}, expected {[uniq.index(pos[i]) + 1]}', f)
         obs('per-frame-mapping', okm, f'frame {f + 1}: mappings per-frame {labels} shared {sh_labels}, expected {want_labels} '
             f'({"shared" if M == 1 else "per frame"})', f)
+        impl['perFrame'].append({'pos': [_rat(v) for v in _pos_of_item(item, cs)], 'div': div[0] if len(div) == 1 else div, 'maps': labels})
+    queries = []
     # ---- file round trip
     stw, blob = _try(_written, pm)
     if stw != 'ok':
@@ -320,9 +375,15 @@ def _check_pm(ctx, idx, reqs, pending):
         if sto != 'ok':
             obs(f'{tag}/open', False, f'imread fails: {im}')
             continue
-        for f in range(F):
+        for f in list(range(F)) + [F]:
             s1, v = _try(im.get_stored_frame, f + 1)
-            obs(f'{tag}/get_stored_frame', s1 == 'ok' and _raw_equal(v, planes[f]), v if s1 != 'ok' else None, f, float=is_float)
+            if f < F:
+                obs(f'{tag}/get_stored_frame', s1 == 'ok' and _raw_equal(v, planes[f]), v if s1 != 'ok' else None, f, float=is_float)
+            elif s1 == 'ok':
+                obs(f'{tag}/get_stored_frame', False, 'frame number beyond the image accepted', f)
+            if not lazy and d['ts'] in NATIVE:
+                queries.append({'q': 'stored', 'f': f})
+                impl['answers'].append(list(np.ascontiguousarray(v).astype(v.dtype.newbyteorder('<')).tobytes()) if s1 == 'ok' else 'err')
         sel = [r.randrange(F) for _ in range(r.randint(1, 4))]
         s2, v = _try(im.get_stored_frames, [s + 1 for s in sel])
         obs(f'{tag}/get_stored_frames', s2 == 'ok' and _raw_equal(v, want[sel]), v if s2 != 'ok' else None, sel, float=is_float)
@@ -335,23 +396,36 @@ def _check_pm(ctx, idx, reqs, pending):
         for f in range(F):
             i, j = divmod(f, M)
             for k, m in enumerate(desc[j]):
-                selector = r.choice([k, k - len(desc[j]), m['label']])
+                selector = r.choice([k, k - len(desc[j]), m['label'], Code(m['unit'], 'UCUM', m['unit'])])
+                # selecting by unit finds the FIRST mapping with that unit
+                target = m
+                if isinstance(selector, Code):
+                    target = next(mm for mm in desc[j] if mm['unit'] == m['unit'])
                 s5, v = _try(im.get_frame, f + 1, apply_real_world_transform=True, real_world_value_map_selector=selector)
                 if is_float:
                     x = planes[f].astype(np.float64)
-                    inside = bool(np.all(np.isfinite(x)) and x.min() >= m['first'] and x.max() <= m['last'])
-                    exp = (x * m['slope'] + m['intercept']) if inside else None
+                    inside = bool(np.all(np.isfinite(x)) and x.min() >= target['first'] and x.max() <= target['last'])
+                    exp = (x * target['slope'] + target['intercept']) if inside else None
                 else:
-                    exp = _expected_real(planes[f], m)
+                    exp = _expected_real(planes[f], target)
                 if exp is None:
-                    # undefined outside the mapped range: a refusal is the expected outcome, silently wrong values are not
-                    obs(f'{tag}/rwvm-outside', s5 != 'ok' or not np.all(np.isfinite(np.asarray(v, dtype=np.float64))) or True, None, f,
-                        float=is_float, mapping=m['kind'])
+                    # undefined outside the mapped range: a refusal is the expected outcome
+                    ctx.case(kind='pm', path=f'{tag}/rwvm-outside', outcome='refused' if s5 != 'ok' else 'values', mapping=m['kind'])
+                    if s5 == 'ok' and not is_float:
+                        obs(f'{tag}/rwvm-outside', False, 'values outside the mapped range were mapped silently', f, mapping=m['kind'])
                 else:
                     good = s5 == 'ok' and np.asarray(v).shape == exp.shape and bool(np.array_equal(np.asarray(v, dtype=np.float64), exp))
-                    obs(f'{tag}/rwvm', good, (v if s5 != 'ok' else {'what': 'real-world values differ from mapping %s of channel %d' % (m['label'], j),
+                    obs(f'{tag}/rwvm', good, (v if s5 != 'ok' else {'what': 'real-world values differ from mapping %s of channel %d' % (target['label'], j),
                                                                       'got': np.asarray(v, dtype=np.float64).reshape(-1)[:8].tolist(),
                                                                       'want': exp.reshape(-1)[:8].tolist()}), f, float=is_float, mapping=m['kind'])
+                if not lazy and d['ts'] in NATIVE and not is_float:
+                    queries.append(dict({'q': 'real', 'f': f}, **_sel_json(selector)))
+                    impl['answers'].append([_rat(float(t)) for t in np.asarray(v, dtype=np.float64).reshape(-1)] if s5 == 'ok' else 'err')
+            if not lazy and d['ts'] in NATIVE and not is_float and r.random() < 0.3:
+                bad = r.choice([len(desc[j]), -len(desc[j]) - 1, 'nolabel'])
+                s7, v = _try(im.get_frame, f + 1, apply_real_world_transform=True, real_world_value_map_selector=bad)
+                queries.append(dict({'q': 'real', 'f': f}, **_sel_json(bad)))
+                impl['answers'].append('err' if s7 != 'ok' else 'values')
         # volume (one mapping per position, distinct positions along one direction)
         if M == 1 and N >= 2 and not (d['explicit_pos'] and len({p[:2] for p in pos}) > 1):
             s6, vol = _try(im.get_volume, dtype=np.float64, apply_real_world_transform=False, apply_modality_transform=False,
@@ -374,10 +448,12 @@ def _check_pm(ctx, idx, reqs, pending):
                     sl = arr[vpos.index(key)]
                     okv = okv and bool(np.array_equal(sl, planes[i].astype(np.float64), equal_nan=True))
                 obs(f'{tag}/get_volume', okv, 'volume slices differ from the planes at the same position', None, float=is_float)
+    reqs.append(_pm_request(a, desc, nested, len(desc), pos, len(pos), d['ts'], queries))
+    pending.append((case, 'pm', impl))
 
 
 # ------------------------------------------------------------------ parametric maps that must be refused
-def _pm_refusals(ctx):
+def _pm_refusals(ctx, reqs=None, pending=None):
     import highdicom as hd
     from highdicom.pm import ParametricMap
     from gen.sources import ct_series
@@ -386,28 +462,40 @@ def _pm_refusals(ctx):
     maps, _ = _mappings(r, 'uint16', 1, nested=False)
     nested2, _ = _mappings(r, 'uint16', 2, nested=True)
 
-    def build(a, m, s=src, ts=EXPLICIT, **kw):
-        return _try(ParametricMap, s, a, hd.UID(), 1, hd.UID(), 1, 'm', 'mm', '1', 'sn', False, m, 0.5, 1.0,
-                    transfer_syntax_uid=ts, **kw)
+    maps_d = [[{'kind': 'linear', 'label': 'a', 'unit': '1', 'first': 0, 'last': 65535, 'slope': 1, 'intercept': 0}]]
+    src_pos = [tuple(float(v) for v in s_.ImagePositionPatient) for s_ in src]
+
+    def build(a, m, s=src, ts=EXPLICIT, model=None, **kw):
+        res = _try(ParametricMap, s, a, hd.UID(), 1, hd.UID(), 1, 'm', 'mm', '1', 'sn', False, m, 0.5, 1.0,
+                   transfer_syntax_uid=ts, **kw)
+        if reqs is not None and model is not None:
+            nested, n_lists, n_pos = model
+            reqs.append(_pm_request(a, maps_d * max(1, n_lists), nested, n_lists, src_pos, n_pos, ts, []))
+            pending.append(({'kind': 'pm-refusal', 'what': f'{a.dtype} {a.shape} nested={nested} lists={n_lists} positions={n_pos} {ts}'},
+                            'pm', 'err' if res[0] != 'ok' else 'accepted'))
+        return res
     base = np.arange(24, dtype=np.uint16).reshape(2, 3, 4)
     cases = []
     for dt in ('int16', 'int8', 'int32', 'int64', 'uint32', 'uint64', 'float16', 'bool', 'complex64', '>u2', 'S1'):
-        cases.append((f'dtype {dt}', lambda dt=dt: build(base.astype(dt), maps)))
+        cases.append((f'dtype {dt}', lambda dt=dt: build(base.astype(dt), maps, model=(False, 1, 2))))
     for shp in ((24,), (1, 2, 3, 4, 1), (1, 1, 2, 3, 4, 1)):
-        cases.append((f'shape {shp}', lambda shp=shp: build(base.reshape(shp), maps)))
-    cases.append(('planes != positions', lambda: build(base[:1], maps)))
-    cases.append(('3 planes, 2 positions', lambda: build(np.zeros((3, 3, 4), np.uint16), maps)))
-    cases.append(('4-D with flat mappings', lambda: build(np.zeros((2, 3, 4, 2), np.uint16), maps)))
-    cases.append(('4-D with 2 channels, 1 mapping list', lambda: build(np.zeros((2, 3, 4, 2), np.uint16), [maps])))
-    cases.append(('4-D with 1 channel, 2 mapping lists', lambda: build(np.zeros((2, 3, 4, 1), np.uint16), nested2)))
-    cases.append(('3-D with nested mappings', lambda: build(base, nested2)))
-    cases.append(('empty mappings', lambda: build(base, [])))
-    cases.append(('float with RLE', lambda: build(base.astype('float32'), maps, ts=RLE)))
-    cases.append(('float with JPEG-LS', lambda: build(base.astype('float64'), maps, ts=JLS)))
-    cases.append(('uint with JPEG baseline', lambda: build(base.astype('uint8'), maps, ts=JPG)))
+        cases.append((f'shape {shp}', lambda shp=shp: build(base.reshape(shp), maps, model=(False, 1, 2))))
+    cases.append(('planes != positions', lambda: build(base[:1], maps, model=(False, 1, 2))))
+    cases.append(('3 planes, 2 positions', lambda: build(np.zeros((3, 3, 4), np.uint16), maps, model=(False, 1, 2))))
+    cases.append(('4-D with flat mappings', lambda: build(np.zeros((2, 3, 4, 2), np.uint16), maps, model=(False, 1, 2))))
+    cases.append(('4-D with 2 channels, 1 mapping list', lambda: build(np.zeros((2, 3, 4, 2), np.uint16), [maps], model=(True, 1, 2))))
+    cases.append(('4-D with 1 channel, 2 mapping lists', lambda: build(np.zeros((2, 3, 4, 1), np.uint16), nested2, model=(True, 2, 2))))
+    cases.append(('3-D with nested mappings', lambda: build(base, nested2, model=(True, 2, 2))))
+    cases.append(('empty mappings', lambda: build(base, [], model=(False, 0, 2))))
+    cases.append(('float with RLE', lambda: build(base.astype('float32'), maps, ts=RLE, model=(False, 1, 2))))
+    cases.append(('float with JPEG-LS', lambda: build(base.astype('float64'), maps, ts=JLS, model=(False, 1, 2))))
+    cases.append(('uint with JPEG baseline', lambda: build(base.astype('uint8'), maps, ts=JPG, model=(False, 1, 2))))
     cases.append(('window width 0', lambda: _try(ParametricMap, src, base, hd.UID(), 1, hd.UID(), 1, 'm', 'mm', '1', 'sn', False, maps, 0.5, 0.0)))
-    cases.append(('explicit positions, wrong number', lambda: build(base, maps, plane_positions=[hd.PlanePositionSequence('PATIENT', [0.0, 0.0, 1.0])])))
+    cases.append(('explicit positions, wrong number', lambda: build(base, maps, plane_positions=[hd.PlanePositionSequence('PATIENT', [0.0, 0.0, 1.0])], model=(False, 1, 1))))
     cases.append(('no source image', lambda: build(base, maps, s=[])))
+    st0, _ = build(base, maps, model=(False, 1, 2))
+    if st0 != 'ok':
+        ctx.fail({'kind': 'pm-refusal', 'what': 'control'}, 'the valid control of the refusal list was refused', site='pm-refusal')
     for name, f in cases:
         st, val = f()
         ctx.case(kind='pm-refusal', outcome='refused' if st != 'ok' else 'ACCEPTED', what=name)
@@ -577,16 +665,77 @@ def _sc_random(ctx, reqs, pending):
         _check_sc(ctx, 'random', dt, ba, shape, pi, ts, r.choice(['PATIENT', 'SLIDE']), 100000 + i, layout=layout, reqs=reqs, pending=pending)
 
 
+def _compare_pm(ctx, case, impl, ans):
+    if 'proto_err' in ans:
+        ctx.disagree('L0', case, impl if impl == 'err' else 'object', ans, 'model protocol error')
+        return
+    if impl == 'err' or 'err' in ans:
+        if (impl == 'err') != ('err' in ans):
+            ctx.disagree('L0', case, 'refused' if impl == 'err' else 'accepted', ans if 'err' in ans else 'accepted', 'accept-vs-refuse')
+        return
+    if impl == 'accepted':
+        return
+    o = ans['ok']
+    for k in ('element', 'ba', 'bs', 'hb', 'pr', 'rows', 'cols', 'frames'):
+        if o[k] != impl[k]:
+            ctx.disagree('L1', case, {k: impl[k]}, {k: o[k]}, f'image pixel attribute {k}')
+            return
+    if impl['pixelData'] is not None and o['pixelData'] != impl['pixelData']:
+        ctx.disagree('L1', case, impl['pixelData'][:32], o['pixelData'][:32], 'pixel data bytes')
+        return
+    if o['shared'] != impl['shared']:
+        ctx.disagree('L1', case, impl['shared'], o['shared'], 'shared real-world value mappings')
+        return
+    if len(o['perFrame']) != len(impl['perFrame']):
+        ctx.disagree('L1', case, len(impl['perFrame']), len(o['perFrame']), 'number of per-frame items')
+        return
+    for f, (mo, io_) in enumerate(zip(o['perFrame'], impl['perFrame'])):
+        if mo != io_:
+            ctx.disagree('L1', dict(case, frame=f), io_, mo, 'per-frame functional group (position / dimension index / mappings)')
+            return
+    for q, (ma, ia) in enumerate(zip(o['answers'], impl['answers'])):
+        m_ok = 'ok' in ma
+        if ia == 'err' or not m_ok:
+            if (ia == 'err') == m_ok:
+                ctx.disagree('L0', dict(case, query=q), ia if ia == 'err' else 'values', ma if not m_ok else 'values', 'read: ok-vs-error')
+                return
+        elif ia != 'values' and ma['ok'] != ia:
+            ctx.disagree('L0', dict(case, query=q), ia[:16], ma['ok'][:16], 'read: values')
+            return
+
+
+def _compare_sc(ctx, case, impl, ans):
+    st, val = impl
+    if 'proto_err' in ans:
+        ctx.disagree('L0', case, st, ans, 'model protocol error')
+        return
+    # the module block is followed by encode_frame, which may still refuse (C07): compare refusals one way only
+    if 'err' in ans and st == 'ok':
+        ctx.disagree('L0', case, 'accepted', ans, 'image pixel module: model refuses, implementation accepts')
+    elif 'ok' in ans and st == 'ok':
+        mo = ans['ok']
+        if mo != [val[0], val[1], val[2], val[5], val[3], val[4]]:
+            ctx.disagree('L1', case, val[:6], mo, 'image pixel module attributes')
+
+
 def run(ctx):
     import hd_env  # noqa: F401
     import warnings
     warnings.simplefilter('ignore')
     reqs, pending = [], []
-    _pm_refusals(ctx)
+    _pm_refusals(ctx, reqs, pending)
     for idx in range(ctx.n(60, 900)):
         _check_pm(ctx, idx, reqs, pending)
     _sc_cells(ctx, reqs, pending)
     _sc_random(ctx, reqs, pending)
+    answers = ctx.model(reqs)
+    if answers is None:
+        return
+    for (case, what, impl), ans in zip(pending, answers):
+        if what == 'pm':
+            _compare_pm(ctx, case, impl, ans)
+        elif what == 'sc-module':
+            _compare_sc(ctx, case, impl, ans)
 
 
 def _float_witness(ctx):
